@@ -1,0 +1,39 @@
+//go:build verif
+
+package olareg
+
+import (
+	"context"
+	"time"
+
+	"github.com/opencontainers/go-digest"
+
+	"github.com/olareg/olareg/internal/store"
+)
+
+// This file is only compiled with the "verif" build tag, see internal/store/verif_hooks.go.
+
+// VerifGC runs one synchronous garbage collection of a single repository.
+func (s *Server) VerifGC(ctx context.Context, repoStr string) error {
+	return store.VerifGC(ctx, s.store, repoStr)
+}
+
+// VerifGCPass runs one store wide garbage collection pass as the ticker does.
+func (s *Server) VerifGCPass(cur, prev time.Time) error {
+	return store.VerifGCPass(s.store, cur, prev)
+}
+
+// VerifSetBlobTime changes the modification time used to age a blob.
+func (s *Server) VerifSetBlobTime(ctx context.Context, repoStr string, d digest.Digest, t time.Time) error {
+	return store.VerifSetBlobTime(ctx, s.store, repoStr, d, t)
+}
+
+// VerifUploads lists the open upload sessions of a repository.
+func (s *Server) VerifUploads(ctx context.Context, repoStr string) ([]string, error) {
+	return store.VerifUploads(ctx, s.store, repoStr)
+}
+
+// VerifStore returns the backend store.
+func (s *Server) VerifStore() store.Store {
+	return s.store
+}
